@@ -36,6 +36,59 @@ def NoPanicEv (ev : Event) : Prop := ev.isPanic = none
 @[simp] theorem currentLoop_branch (i b) : currentLoop (.branch i :: b) = currentLoop b := rfl
 @[simp] theorem currentLoop_short (l b) : currentLoop (.shortCircuit l :: b) = currentLoop b := rfl
 
+theorem patchPopJump_ok (code : Code) (idx target : Nat) (site : String) (t0 : Nat) (s : Bool)
+    (h : code[idx]? = some (.popJumpIfFalse t0, s)) :
+    patchPopJump code idx target site = .ok (code.set idx (.popJumpIfFalse target, s)) := by
+  simp [patchPopJump, h]
+
+theorem patchIterate_ok (code : Code) (idx target : Nat) (site : String) (t0 : Nat) (s : Bool)
+    (h : code[idx]? = some (.iterate t0, s)) :
+    patchIterate code idx target site = .ok (code.set idx (.iterate target, s)) := by
+  simp [patchIterate, h]
+
+theorem condCode_of_none (b : Nat) (l : Option Nat) (o : Option Expr) (h : ¬ o.isSome = true) :
+    condCode b l o = [] := by
+  cases o <;> simp_all [condCode]
+
+theorem compileFilters_cons (x : Expr) (xs : List Expr) (c : Comp) :
+    compileFilters (x :: xs) c = bnd (compileFilters [x] c) fun c => compileFilters xs c := by
+  cases x <;> simp [compileFilters]
+  rename_i e n k
+  cases compileKwargs k c <;> simp [bnd]
+
+theorem filtersCode_cons (x : Expr) (xs : List Expr) (b : Nat) (l : Option Nat) :
+    filtersCode b l (x :: xs)
+      = filtersCode b l [x] ++ filtersCode (b + (filtersCode b l [x]).length) l xs := by
+  cases x <;> simp [filtersCode]
+
+theorem set_at {α : Type} (a : List α) (x y : α) (r : List α) (i : Nat) (h : i = a.length) :
+    (a ++ x :: r).set i y = a ++ y :: r := by subst h; simp
+
+theorem idx_pjif (P cc E R : Code) (x : CEntry) :
+    (((P ++ (cc ++ [x])) ++ E) ++ R)[P.length + cc.length]? = some x := by grind
+
+theorem idx_iter (P0 M E R S : Code) (it v : CEntry) (i : Nat) (hi : P0.length < i) :
+    ((((((P0 ++ [it]) ++ M) ++ E) ++ R).set i v) ++ S)[P0.length]? = some it := by grind
+
+theorem idx_iter' (P0 M E R S : Code) (it : CEntry) :
+    ((((((P0 ++ [it]) ++ M) ++ E) ++ R)) ++ S)[P0.length]? = some it := by grind
+
+theorem comp_final (P0 cc E : Code) (it it' x x' app j pl : CEntry) (i : Nat)
+    (hi : i = (P0 ++ [it]).length + cc.length) :
+    ((((((P0 ++ [it]) ++ (cc ++ [x])) ++ E) ++ [app]).set i x') ++ [j]).set P0.length it' ++ [pl]
+      = P0 ++ ([it'] ++ (cc ++ ([x'] ++ (E ++ [app, j, pl])))) := by
+  subst hi; grind
+
+theorem idx_iter2 (P0 E R S : Code) (it : CEntry) :
+    ((((P0 ++ [it]) ++ E) ++ R) ++ S)[P0.length]? = some it := by grind
+
+theorem comp_final2 (P0 E : Code) (it it' app j pl : CEntry) :
+    ((((((P0 ++ [it]) ++ []) ++ E) ++ [app]) ++ [j]).set P0.length it') ++ [pl]
+      = P0 ++ ([it'] ++ (E ++ [app, j, pl])) := by
+  have : (((((P0 ++ [it]) ++ []) ++ E) ++ [app]) ++ [j]) = P0 ++ it :: (E ++ [app, j]) := by simp
+  rw [this, set_at P0 it it' _ _ rfl]
+  simp
+
 theorem comp_ext (a b : Comp) (h1 : a.chunk = b.chunk) (h2 : a.bodies = b.bodies)
     (h3 : a.events = b.events) (h4 : a.depth = b.depth) : a = b := by
   cases a; cases b; simp_all
@@ -44,9 +97,12 @@ theorem comp_ext (a b : Comp) (h1 : a.chunk = b.chunk) (h2 : a.bodies = b.bodies
 def Agrees (r : M Comp) (c : Comp) (code : Code) (evs : List Event) : Prop := r = .ok (Res c code evs)
 
 def ImM1 (e : Expr) : Prop :=
-  ∀ c, AllE NoPanicEv (exprEvents (currentLoop c.bodies).isSome c.depth e) →
+  (∀ c, AllE NoPanicEv (exprEvents (currentLoop c.bodies).isSome c.depth e) →
     compileExpr e c = .ok (Res c (exprCode c.chunk.length (currentLoop c.bodies) e)
-      (exprEvents (currentLoop c.bodies).isSome c.depth e))
+      (exprEvents (currentLoop c.bodies).isSome c.depth e))) ∧
+  (∀ c, AllE NoPanicEv (filtersEvents (currentLoop c.bodies).isSome c.depth [e]) →
+    compileFilters [e] c = .ok (Res c (filtersCode c.chunk.length (currentLoop c.bodies) [e])
+      (filtersEvents (currentLoop c.bodies).isSome c.depth [e])))
 def ImM2 (ns : List Node) : Prop :=
   ∀ c, AllE NoPanicEv (nodesEvents (currentLoop c.bodies).isSome c.depth ns) →
     compileNodes ns c = .ok (Res c (nodesCode c.chunk.length (currentLoop c.bodies) ns)
@@ -112,7 +168,15 @@ macro "imp_unfold" : tactic => `(tactic| simp only [compileExpr, compileNodes, c
     nodeEvents, kwargsEvents, filtersEvents, optExprEvents, arrayItemsEvents, mapItemsEvents, allE_append,
     allE_cons, allE_nil, and_true, true_and] at *)
 
-set_option maxHeartbeats 1600000 in
+macro "imp_tail" : tactic => `(tactic| (
+  (try imp_unfold)
+  (try simp only [Bool.false_eq_true, ↓reduceIte, if_true, if_false, Bool.not_true, Bool.not_false,
+    Option.isSome_some, Option.isSome_none, Bool.not_eq_true, *] at *)
+  (try casesm* _ ∧ _)
+  (repeat (first | imp_calls | imp_eval))
+  (try grind)))
+
+set_option maxHeartbeats 3200000 in
 theorem imp_eq_aux :
     (∀ e, ImM1 e) ∧ (∀ ns, ImM2 ns) ∧ (∀ n, ImM3 n) ∧ (∀ k, ImM4 k) ∧ (∀ f, ImM5 f) ∧
     (∀ o, ImM6 o ∧ ImM7 o) ∧ (∀ a, ImM8 a) ∧ (∀ m, ImM9 m) := by
@@ -128,9 +192,101 @@ theorem imp_eq_aux :
   case case15 =>
     intro op l r ih1 ih2
     simp only [ImM1] at *
+    refine ⟨?_, fun c _ => by simp [compileFilters, filtersCode, filtersEvents, Res]⟩
     intro c h
     cases op <;> (try imp_unfold) <;> (try (simp [NoPanicEv, Event.isPanic] at h; done)) <;>
-      (try casesm* _ ∧ _) <;> (try imp_calls) <;> (try imp_eval) <;> (try grind)
+      (try casesm* _ ∧ _) <;> (repeat (first | imp_calls | imp_eval)) <;> (try grind)
+  case case24 =>
+    simp only [ImM3]
+    intro c h
+    cases hl : currentLoop c.bodies <;>
+      simp [compileNode, nodeEvents, nodeCode, hl, NoPanicEv, Event.isPanic, Res, add, ns] at h ⊢
+  case case12 =>
+    intro n k b sc ih1 ih2
+    simp only [ImM1, ImM2, ImM9] at *
+    refine ⟨?_, fun c _ => by simp [compileFilters, filtersCode, filtersEvents, Res]⟩
+    intro c h
+    cases sc <;> imp_tail
+  case case25 =>
+    intro cnd body els ih1 ih2 ih3
+    simp only [ImM1, ImM2, ImM3] at *
+    intro c h
+    by_cases hE : els = []
+    · subst hE; clear ih3; imp_tail
+    · have hE' : els.isEmpty = false := by cases els <;> simp_all
+      imp_tail
+  case case22 =>
+    intro k v t body els ih1 ih2 ih3
+    simp only [ImM1, ImM2, ImM3] at *
+    intro c h
+    by_cases hE : els = []
+    · subst hE; clear ih3; cases k <;> imp_tail
+    · have hE' : els.isEmpty = false := by cases els <;> simp_all
+      cases k <;> imp_tail
+  case case11 =>
+    intro e k v t cnd ih1 ih2 ih3
+    simp only [ImM1, ImM6, ImM7] at *
+    obtain ⟨ih1, -⟩ := ih1
+    obtain ⟨ih2, -⟩ := ih2
+    obtain ⟨ih3, -⟩ := ih3
+    refine ⟨?_, fun c _ => by simp [compileFilters, filtersCode, filtersEvents, Res]⟩
+    intro c h
+    imp_unfold
+    obtain ⟨⟨h1, h2⟩, h3⟩ := h
+    by_cases hS : cnd.isSome = true
+    · cases k <;>
+      · simp only [storeKey]
+        rw [ih2 _ (by imp_side)]
+        simp only [bnd_ok, res_bodies, res_chunk, res_events, res_depth, add_chunk, add_bodies, add_events, add_depth]
+        rw [ih3 _ (by imp_side)]
+        simp only [bnd_ok, hS, ↓reduceIte, res_bodies, res_chunk, res_events, res_depth, add_chunk, add_bodies,
+          add_events, add_depth]
+        rw [ih1 _ (by imp_side)]
+        simp only [bnd_ok, res_bodies, res_chunk, res_events, res_depth, add_chunk, add_bodies, add_events, add_depth]
+        simp only [ns]
+        rw [patchPopJump_ok _ _ _ _ 0 false (idx_pjif _ _ _ _ _)]
+        simp only [bnd_ok, add_chunk, add_bodies, add_events, add_depth]
+        rw [patchIterate_ok _ _ _ _ 0 false (idx_iter _ _ _ _ _ _ _ _ (by simp; omega))]
+        simp only [bnd_ok, add_chunk, add_bodies, add_events, add_depth]
+        refine congrArg Except.ok (comp_ext _ _ ?_ ?_ ?_ ?_)
+        · simp only [add_chunk, res_chunk]
+          rw [comp_final _ _ _ _ _ _ _ _ _ _ _ rfl]
+          simp [exprCode, List.append_assoc, keyStore, sp, ns, hS, Nat.add_assoc]
+          grind
+        · simp
+        · simp [List.append_assoc]
+        · simp
+    · have hc : ∀ b l, condCode b l cnd = [] := fun b l => condCode_of_none b l cnd hS
+      cases k <;>
+      · simp only [storeKey]
+        rw [ih2 _ (by imp_side)]
+        simp only [bnd_ok, res_bodies, res_chunk, res_events, res_depth, add_chunk, add_bodies, add_events, add_depth]
+        rw [ih3 _ (by imp_side)]
+        simp only [bnd_ok, hS, hc, Bool.false_eq_true, ↓reduceIte, List.append_nil, res_bodies, res_chunk,
+          res_events, res_depth, add_chunk, add_bodies, add_events, add_depth]
+        rw [ih1 _ (by imp_side)]
+        simp only [bnd_ok, res_bodies, res_chunk, res_events, res_depth, add_chunk, add_bodies, add_events, add_depth]
+        rw [patchIterate_ok _ _ _ _ 0 false (idx_iter' _ _ _ _ _ _)]
+        simp only [bnd_ok, add_chunk, add_bodies, add_events, add_depth]
+        refine congrArg Except.ok (comp_ext _ _ ?_ ?_ ?_ ?_)
+        · simp only [add_chunk, res_chunk]
+          rw [comp_final2]
+          simp [exprCode, List.append_assoc, keyStore, sp, ns, hS, hc, Nat.add_assoc]
+          grind
+        · simp
+        · simp [List.append_assoc]
+        · simp
+  case case40 =>
+    intro e rest ih1 ih2
+    simp only [ImM1, ImM5] at *
+    obtain ⟨-, ih1⟩ := ih1
+    intro c h
+    rw [filtersEvents_cons] at h ⊢
+    rw [allE_append] at h
+    rw [compileFilters_cons, ih1 c h.1]
+    simp only [bnd_ok]
+    rw [ih2 _ (by simpa using h.2), filtersCode_cons e rest]
+    simp [Res, List.append_assoc]
   all_goals intros
   all_goals (try simp only [ImM1, ImM2, ImM3, ImM4, ImM5, ImM6, ImM7, ImM8, ImM9] at *)
   all_goals (try (refine ⟨?_, ?_⟩))
@@ -143,11 +299,29 @@ theorem imp_eq_aux :
   all_goals (try casesm* _ ∧ _)
   all_goals (try (
     (try split)
-    all_goals (try imp_calls)
-    all_goals (try imp_eval)
+    all_goals (repeat (first | imp_calls | imp_eval))
     all_goals (try grind)
     done))
-  all_goals trace_state
-  all_goals sorry
+
+/-- `compile(nodes)` in any compiler state: appends `nodesCode`, records `nodesEvents`, leaves
+`processing_bodies` and `block_depth` alone, reaches no `unreachable!()` / `unwrap()` site — provided
+the recorded events contain no panic site -/
+theorem imp_eq_nodes (ns : List Node) (c : Comp)
+    (h : AllE NoPanicEv (nodesEvents (currentLoop c.bodies).isSome c.depth ns)) :
+    compileNodes ns c = .ok (Res c (nodesCode c.chunk.length (currentLoop c.bodies) ns)
+      (nodesEvents (currentLoop c.bodies).isSome c.depth ns)) :=
+  imp_eq_aux.2.1 ns c h
+
+/-- for a scoped node list, from a fresh `Compiler` -/
+theorem imp_eq_scoped (ns : List Node) (h : nodesScoped false ns = true) :
+    compileNodes ns Comp.new
+      = .ok { chunk := nodesCode 0 none ns, bodies := [], events := nodesEvents false 0 ns, depth := 0 } := by
+  have hg := scoped_good_aux.2.1 false 0 ns false h (fun x => x)
+  have hn : AllE NoPanicEv (nodesEvents (currentLoop Comp.new.bodies).isSome Comp.new.depth ns) := by
+    intro ev hev
+    have := hg ev hev
+    cases ev <;> simp_all [NoPanicEv, Event.isPanic, Good, Comp.new]
+  rw [imp_eq_nodes ns Comp.new hn]
+  simp [Res, Comp.new]
 
 end Tera.Compiler.Imp
